@@ -1,6 +1,7 @@
 //! C11 - each parameter shows the latest value its own frames carried; no cross-talk.
 use super::{viol, Prop, Tier};
 use crate::carried::{carried, norm_ais, Carried};
+use crate::ehs;
 use crate::exec::{self, Outcome};
 use crate::gen::{self, Chunking, Kind, Reg};
 use crate::modes;
@@ -125,6 +126,7 @@ const PARAMS: &[Param] = &[
     Param { name: "track", get: |r| Val::U(r.track) },
     Param { name: "vertical rate", get: |r| Val::I(r.vrate) },
     Param { name: "heading", get: |r| Val::U(r.heading) },
+    Param { name: "GNSS altitude", get: |r| Val::U(r.altitude_gnss) },
     Param { name: "surveillance status", get: |r| Val::C(r.surveillance_status) },
     Param { name: "ADS-B version", get: |r| Val::U(r.adsb_version) },
     Param { name: "capability (CA)", get: |r| Val::U(Some(r.ca)) },
@@ -156,7 +158,7 @@ enum Role {
     Any,
 }
 
-fn role(p: &str, c: &Carried, frame: &[u8], relaxed: bool) -> Role {
+fn role(p: &str, c: &Carried, frame: &[u8], relaxed: bool, row_altitude: Option<u32>) -> Role {
     let df = c.df;
     let es = df == 17;
     let opt_u = |v: Option<u32>| match v { Some(x) => Role::Must(Val::U(Some(x))), None => Role::NoValue };
@@ -202,6 +204,12 @@ fn role(p: &str, c: &Carried, frame: &[u8], relaxed: bool) -> Role {
         "heading" => match df {
             17 if c.tc == 19 && (c.st == 3 || c.st == 4) => opt_u(c.heading),
             20 | 21 if c.reg == 60 => if relaxed { match c.heading { Some(x) => Role::Must(Val::U(Some(x))), None => Role::May(None) } } else { Role::May(c.heading.map(|x| Val::U(Some(x)))) },
+            _ => Role::Not,
+        },
+        // TC19 carries the difference to the barometric altitude the row shows; TC20-22 carry the height itself
+        "GNSS altitude" => match df {
+            17 if c.tc == 19 => match (c.altitude_delta, row_altitude) { (Some(dlt), Some(alt)) => Role::Must(Val::U(Some((alt as i32 + dlt) as u32))), _ => Role::NoValue },
+            17 if (20..=22).contains(&c.tc) => opt_u(c.altitude_gnss),
             _ => Role::Not,
         },
         "surveillance status" => match df {
@@ -255,6 +263,12 @@ fn check(case: &Case, st: &mut Stats) -> Vec<Violation> {
             _ => None,
         };
         if let Some(a) = indep { if car.altitude != a { st.probe("altitude_decoder_disagrees_with_reference"); } car.altitude = a; }
+        // callsigns are decoded independently as well (eight 6-bit characters, blanks and unassigned codes dropped)
+        if (c.df == 17 && (1..=4).contains(&car.tc)) || (matches!(c.df, 20 | 21) && car.reg == 20) {
+            let cs = ehs::callsign20(modes::get_bits(frame, 33, 88));
+            if car.ais.clone().unwrap_or_default() != cs { st.probe("callsign_decoder_disagrees_with_reference"); }
+            car.ais = Some(cs);
+        }
         st.oracle_evals += 1;
         // other aircraft: nothing changes (expired rows may go)
         for (k, rb) in before.iter() {
@@ -292,7 +306,7 @@ fn check(case: &Case, st: &mut Stats) -> Vec<Violation> {
             if df18 && !matches!(p.name, "squawk" | "capability (CA)" | "capability (BDS 1,7 report)") { continue; }
             let now = (p.get)(new);
             let old = prev.map(|r| (p.get)(r)).unwrap_or_else(|| blank(p.name));
-            let r = role(p.name, &car, frame, relaxed);
+            let r = role(p.name, &car, frame, relaxed, new.altitude);
             let w = json!({"param": p.name, "df": c.df, "tc": car.tc, "st": car.st, "reg": car.reg, "use_update_method": uflag, "creating": creating});
             match r {
                 Role::Must(val) => {
